@@ -45,11 +45,11 @@ PUBLIC = [
 ]
 
 EXTERNAL_CLASSES = ['MathArray']            # classes used as types in schemas but defined outside MODULES
-TAG_CALLABLE, TAG_NUMBER = 1, 2
+TAG_CALLABLE, TAG_NUMBER, TAG_REAL = 1, 2, 3
 ORACLE_PERCENTAGE = 1
 
 PYTYPES = {'bool': 'TBool', 'int': 'TInt', 'float': 'TFloat', 'str': 'TStr', 'list': 'TList', 'tuple': 'TTuple',
-           'dict': 'TDict', 'object': 'TObject', 'Number': 'TNumber'}
+           'dict': 'TDict', 'object': 'TObject', 'Number': 'TNumber', 'Real': 'TReal'}
 
 # normalised-AST hashes of the two functions mirrored by hand-written constructors (see module docstring)
 MIRRORED_HASHES = {
@@ -277,8 +277,8 @@ HELPER_SIGS = {
     # name: [(param, kind, default)]   kinds: pytype, pytypes, schema, optschema, Z, optZ, varpytypes
     'Positive': [('thetype', 'pytype', None)],
     'NonNegative': [('thetype', 'pytype', None)],
-    'NumberRange': [('number_type', 'pytype', 'TNumber')],
-    'number_range_alternate': [('number_type', 'pytype', 'TNumber')],
+    'NumberRange': [('number_type', 'pytype', '<source>')],           # the default is read from the source
+    'number_range_alternate': [('number_type', 'pytype', '<source>')],
     'ListOfType': [('given_type', 'pytype', None), ('validator', 'optschema', 'None')],
     'TupleOfType': [('given_types', 'pytypes', None), ('validator', 'optschema', 'None')],
     'is_shape_specification': [('min_dim', 'Z', '1'), ('max_dim', 'optZ', 'None')],
@@ -295,6 +295,7 @@ class Translator:
         self.out = []               # emitted definitions, in order
         self.emitted = {}           # class name -> gallina name
         self.helpers_done = False
+        self.source_defaults = {}
 
     # -- names ---------------------------------------------------------------------------------
     def pytype_of_name(self, name, ctx):
@@ -700,7 +701,7 @@ class Translator:
             if a is None:
                 if default is None:
                     raise Unsupported('missing argument %s of %s' % (p, n))
-                vals.append(default)
+                vals.append(self.source_defaults.get((n, p), default) if default == '<source>' else default)
                 continue
             if kind == 'pytype':
                 vals.append(self.pytype_arg(a, ctx))
@@ -749,7 +750,11 @@ class Translator:
                         got = 'None'
                     elif isinstance(d, ast.Constant) and isinstance(d.value, int):
                         got = str(d.value)
-                    if got != default:
+                    if default == '<source>':
+                        if got is None or kind != 'pytype':
+                            raise Unsupported('default of %s.%s' % (n, p))
+                        self.source_defaults[(n, p)] = got
+                    elif got != default:
                         raise Unsupported('default of %s.%s changed' % (n, p))
             ctx = Ctx(None, None, params={p: kind for p, kind, _ in sig})
             body = self.helper_body(fn, ctx)
